@@ -6,13 +6,22 @@ package lorawan
 // "input buffer unchanged" assertions.
 
 func c09Unchanged(data, orig []byte, what string) {
-	verifAssert(verifBytesEq(data, orig), what+": the input buffer is not modified")
+	// data is a window of a larger buffer (spare capacity behind it): the whole backing buffer must stay as it was
+	verifAssert(verifBytesEq(data[:cap(data)], orig), what+": neither the input buffer nor the memory behind it is modified")
+}
+
+const c09Spare = 6
+
+// c09Input: L symbolic bytes as a sub-slice of a buffer with c09Spare more (symbolic) bytes behind it.
+func c09Input(name string, L int) (data, orig []byte) {
+	orig = verifNondetBytes(name, L+c09Spare)
+	buf := verifCopy(orig)
+	return buf[:L], orig
 }
 
 // Frame decode followed by every decode / decrypt step that applies to the decoded frame.
 func VerifC09_Frame(L, c09MaxStream int) {
-	orig := verifNondetBytes("data", L)
-	data := verifCopy(orig)
+	data, orig := c09Input("data", L)
 	key := AES128Key(verifNondetKey("key"))
 	var p PHYPayload
 	err := p.UnmarshalBinary(data)
@@ -69,8 +78,7 @@ func VerifC09_Frame(L, c09MaxStream int) {
 
 // Text form: base64 contract stub (decoding yields an error or arbitrary bytes of any length up to 3n/4).
 func VerifC09_Text(n int) {
-	text := verifNondetBytes("text", n)
-	orig := verifCopy(text)
+	text, orig := c09Input("text", n)
 	var p PHYPayload
 	p.UnmarshalText(text)
 	c09Unchanged(text, orig, "PHYPayload.UnmarshalText")
@@ -78,8 +86,7 @@ func VerifC09_Text(n int) {
 }
 
 func VerifC09_CFList(L int) {
-	orig := verifNondetBytes("data", L)
-	data := verifCopy(orig)
+	data, orig := c09Input("data", L)
 	var l CFList
 	l.UnmarshalBinary(data)
 	c09Unchanged(data, orig, "CFList.UnmarshalBinary")
@@ -91,8 +98,7 @@ func VerifC09_CFList(L int) {
 
 // Every payload type's decoder with an arbitrary number of bytes.
 func VerifC09_Payloads(L int) {
-	orig := verifNondetBytes("data", L)
-	data := verifCopy(orig)
+	data, orig := c09Input("data", L)
 	up := verifNondetBool("uplink")
 	var jr JoinRequestPayload
 	jr.UnmarshalBinary(up, data)
@@ -132,8 +138,7 @@ func VerifC09_Payloads(L int) {
 
 // A single MAC command and a MAC-command stream of arbitrary bytes (direction symbolic).
 func VerifC09_MAC(L int) {
-	orig := verifNondetBytes("data", L)
-	data := verifCopy(orig)
+	data, orig := c09Input("data", L)
 	up := verifNondetBool("uplink")
 	var mc MACCommand
 	mc.UnmarshalBinary(up, data)
@@ -146,8 +151,7 @@ func VerifC09_MAC(L int) {
 // Every registered MAC payload decoder with every length 0..L (the size table must not be trusted by the decoders).
 func VerifC09_MACPayload(idx, L int) {
 	s := &macSpecs[idx]
-	orig := verifNondetBytes("data", L)
-	data := verifCopy(orig)
+	data, orig := c09Input("data", L)
 	p, _, err := GetMACPayloadAndSize(s.uplink, s.cid)
 	verifAssert(err == nil, "registered")
 	err = p.UnmarshalBinary(data)
@@ -158,8 +162,7 @@ func VerifC09_MACPayload(idx, L int) {
 
 // Identifier text decoders on arbitrary text.
 func VerifC09_IdentText(n int) {
-	text := verifNondetBytes("text", n)
-	orig := verifCopy(text)
+	text, orig := c09Input("text", n)
 	var e EUI64
 	e.UnmarshalText(text)
 	var a DevAddr
